@@ -663,6 +663,152 @@ pub fn generate_from_paths(paths: &str, seed: u64, shard: u64, nshards: u64, pat
     json!({"kind":"gen","runs":runs,"messages":msgs,"paths":npaths,"lines":t.line,"path":path})
 }
 
+/// Field-by-field encoder for explicitly prescribed chunk steps (behaviours printed by TLC from Gen_ChunkRx.tla).
+struct ForeignEnc {
+    tx: std::collections::HashMap<u32, TxMem>,
+    fl: Vec<(u32, InFlight)>,
+    cs: u32,
+}
+impl ForeignEnc {
+    fn new() -> ForeignEnc {
+        ForeignEnc { tx: std::collections::HashMap::new(), fl: Vec::new(), cs: 128 }
+    }
+    fn start(&mut self, run: &mut Run, c: u32, m: M, fmt: u8, long_form: bool, setcs: Option<u32>) {
+        let ml = run.next_line();
+        let mut mj = msg_json(&m);
+        mj["ev"] = json!("Msg");
+        run.push(mj);
+        let val = match fmt {
+            0 => m.ts,
+            3 => self.tx[&c].delta,
+            _ => m.ts.wrapping_sub(self.tx[&c].ts),
+        };
+        let mut b = basic_header(fmt, c, long_form);
+        if fmt <= 2 {
+            b.extend_from_slice(&u24(val.min(0xFFFFFF)));
+        }
+        if fmt <= 1 {
+            b.extend_from_slice(&u24(m.data.len() as u32));
+            b.push(m.ty);
+        }
+        if fmt == 0 {
+            b.extend_from_slice(&m.msid.to_le_bytes());
+        }
+        let ext = if val >= 0xFFFFFF { Some(val) } else { None };
+        if let Some(e) = ext {
+            b.extend_from_slice(&e.to_be_bytes());
+        }
+        let n = m.data.len().min(self.cs as usize);
+        b.extend_from_slice(&m.data[..n]);
+        self.tx.insert(c, TxMem { ts: m.ts, delta: val, len: m.data.len(), ty: m.ty, msid: m.msid });
+        let done = n == m.data.len();
+        run.wire(json!({"ev":"Chunk","ml":ml}), &b, done, false);
+        if done {
+            if let Some(sz) = setcs {
+                self.cs = sz;
+            }
+        } else {
+            self.fl.push((c, InFlight { ml, m, got: n, ext, long_form, setcs }));
+        }
+    }
+    fn cont(&mut self, run: &mut Run, c: u32) {
+        let i = match self.fl.iter().position(|(fc, _)| *fc == c) { Some(i) => i, None => return };
+        let cs = self.cs;
+        let (done, b, ml) = {
+            let f = &mut self.fl[i].1;
+            let mut b = basic_header(3, c, f.long_form);
+            if let Some(e) = f.ext {
+                b.extend_from_slice(&e.to_be_bytes());
+            }
+            let n = (f.m.data.len() - f.got).min(cs as usize);
+            b.extend_from_slice(&f.m.data[f.got..f.got + n]);
+            f.got += n;
+            (f.got == f.m.data.len(), b, f.ml)
+        };
+        run.wire(json!({"ev":"Chunk","ml":ml}), &b, done, false);
+        if done {
+            let (_, f) = self.fl.remove(i);
+            if let Some(sz) = f.setcs {
+                self.cs = sz;
+            }
+        }
+    }
+}
+
+/// Stage S2 for the receiving side: replay the chunk-level behaviours TLC printed from Gen_ChunkRx.tla.  The prescribed
+/// steps are encoded field by field, messages still in flight at the end are completed (round robin), two short
+/// messages follow on every chunk stream used (most compressed legal header), and the stream is fed to the real
+/// deserializer under two partitions.
+pub fn generate_rx_from_paths(paths: &str, seed: u64, shard: u64, nshards: u64, path: &str) -> Value {
+    quiet_panics();
+    let mut t = Trace::create(path);
+    let mut c0 = 0usize;
+    let mut rng = Rng::new(seed ^ shard.wrapping_mul(0x9E3779B9) ^ 77);
+    let text = std::fs::read_to_string(paths).expect("paths file");
+    let mut runs = 0usize;
+    let mut msgs = 0usize;
+    let mut npaths = 0usize;
+    for (i, line) in text.lines().enumerate() {
+        if line.trim().is_empty() || (i as u64) % nshards != shard {
+            continue;
+        }
+        let steps_j: Vec<Value> = serde_json::from_str(line).expect("path json");
+        npaths += 1;
+        let fork = rng.next();
+        let parts = [Part::OneShot, Part::PerPacket, Part::Random, Part::HeaderCuts, Part::ByteWise];
+        let p1 = parts[npaths % 2];
+        let p2 = parts[2 + (rng.below(3) as usize)];
+        for part in [p1, p2].iter() {
+            let mut grng = Rng(fork);
+            let mut run = Run::new(&t, "fixed", false);
+            let mut enc = ForeignEnc::new();
+            let mut used: Vec<u32> = Vec::new();
+            let mut last_ts = 0u32;
+            for (k, sj) in steps_j.iter().enumerate() {
+                let c = sj["c"].as_u64().unwrap() as u32;
+                if sj["k"] == "cont" {
+                    enc.cont(&mut run, c);
+                    continue;
+                }
+                let ts = ((sj["ts"][0].as_u64().unwrap() as u32) << 16) | sj["ts"][1].as_u64().unwrap() as u32;
+                let len = sj["len"].as_u64().unwrap() as usize;
+                let ty = sj["ty"].as_u64().unwrap() as u8;
+                let size = sj["size"].as_u64().unwrap() as u32;
+                let data = if ty == 1 { size.to_be_bytes().to_vec() } else { let mut d = gen_data(&mut grng, len); if len > 0 { d[0] = (k as u8) | 0x20; } d };
+                let m = M { ty, msid: sj["msid"].as_u64().unwrap() as u32, ts, data };
+                if !used.contains(&c) { used.push(c); }
+                last_ts = ts;
+                msgs += 1;
+                enc.start(&mut run, c, m, sj["fmt"].as_u64().unwrap() as u8, sj["long"].as_bool().unwrap(), if size != 0 { Some(size) } else { None });
+            }
+            // complete what is still in flight, round robin
+            while !enc.fl.is_empty() {
+                let cs: Vec<u32> = enc.fl.iter().map(|(c, _)| *c).collect();
+                for c in cs {
+                    enc.cont(&mut run, c);
+                }
+            }
+            // two siblings on every chunk stream used: type 1/2 header first, then type 3
+            for c in used.iter() {
+                let p = enc.tx[c].clone();
+                for j in 0..2u32 {
+                    let p2 = enc.tx[c].clone();
+                    let m = M { ty: if p.ty == 1 { 9 } else { p.ty }, msid: p.msid, ts: last_ts.wrapping_add(40 * (j + 1)), data: gen_data(&mut grng, 10) };
+                    let fmt = if m.ty != p2.ty || m.data.len() != p2.len { 1 } else if m.ts.wrapping_sub(p2.ts) != p2.delta { 2 } else { 3 };
+                    msgs += 1;
+                    enc.start(&mut run, *c, m, fmt, false, None);
+                }
+            }
+            let part = if matches!(part, Part::ByteWise) && run.stream.len() > 6000 { Part::Random } else { *part };
+            let all = do_feed(&mut run, &mut rng, part);
+            run.finish(&mut t, &mut c0, all);
+            runs += 1;
+        }
+    }
+    t.flush();
+    json!({"kind":"genrx","runs":runs,"messages":msgs,"paths":npaths,"lines":t.line,"path":path})
+}
+
 /// Which family of runs to generate into the file: lets the driver split work over TLC processes.
 pub fn generate(kind: &str, tier: &str, seed: u64, shard: u64, nshards: u64, path: &str) -> Value {
     quiet_panics();
